@@ -410,6 +410,59 @@ class FuncAnalysis:
         k for k, vs in assigned.items()
         if vs and all(isinstance(v, ast.Constant) and isinstance(v.value, bool)
                       for v in vs) and k not in f.params}
+    # identity tests between two names (`if x is original:`) work as flags as
+    # well: set by `original = x`, cleared by `x = copy.copy(...)`
+    self.identity_pairs = set()
+    for n in walk_function(f.node):
+      if isinstance(n, ast.Compare) and len(n.ops) == 1 and isinstance(
+          n.ops[0], (ast.Is, ast.IsNot)) and isinstance(
+              n.left, ast.Name) and isinstance(n.comparators[0], ast.Name):
+        a_, b_ = n.left.id, n.comparators[0].id
+        if a_ != b_ and a_ in self.locals and b_ in self.locals:
+          self.identity_pairs.add(frozenset((a_, b_)))
+
+  @staticmethod
+  def _pair_key(pair) -> str:
+    return ' is '.join(sorted(pair))
+
+  def _identity_update(self, stmt, flags):
+    """Flags after a statement that binds one of the names of an identity
+    pair."""
+    bound = set()
+    value = None
+    if isinstance(stmt, ast.Assign):
+      for t in stmt.targets:
+        bound |= {x.id for x in ast.walk(t) if isinstance(x, ast.Name)}
+      if len(stmt.targets) == 1 and isinstance(stmt.targets[0], ast.Name):
+        value = stmt.value
+    elif isinstance(stmt, (ast.AugAssign, ast.AnnAssign, ast.For, ast.With)):
+      for fld in ('target',):
+        t = getattr(stmt, fld, None)
+        if t is not None:
+          bound |= {x.id for x in ast.walk(t) if isinstance(x, ast.Name)}
+      if isinstance(stmt, ast.With):
+        for it in stmt.items:
+          if it.optional_vars is not None:
+            bound |= {x.id for x in ast.walk(it.optional_vars)
+                      if isinstance(x, ast.Name)}
+    if not bound:
+      return flags
+    d = dict(flags)
+    for pair in self.identity_pairs:
+      hit = pair & bound
+      if not hit:
+        continue
+      key = self._pair_key(pair)
+      other = next(iter(pair - hit)) if len(hit) == 1 else None
+      if other is not None and isinstance(value, ast.Name) and (
+          value.id == other):
+        d[key] = True
+      elif other is not None and isinstance(value, ast.Call) and unparse(
+          value.func) in ('copy.copy', 'copy.deepcopy'):
+        d[key] = False   # a new object is none of the existing ones
+      else:
+        d.pop(key, None)
+    return tuple(sorted(d.items()))
 
   # ---------------------------------------------------------------- states
   @staticmethod
@@ -446,6 +499,8 @@ class FuncAnalysis:
         d = dict(flags)
         d[stmt.targets[0].id] = bool(stmt.value.value)
         new_flags = tuple(sorted(d.items()))
+      if self.identity_pairs and self.g.kind[n] in ('stmt', 'for', 'with'):
+        new_flags = self._identity_update(stmt, new_flags)
       out[new_flags] = self.join_envs(out[new_flags], new_env) if (
           new_flags in out) else new_env
     return frozenset(out.items())
@@ -462,6 +517,23 @@ class FuncAnalysis:
       kept = frozenset((fl, env) for fl, env in parts
                        if dict(fl).get(t.id, want) == want)
       return kept if kept else None
+    if isinstance(t, ast.Compare) and len(t.ops) == 1 and isinstance(
+        t.ops[0], (ast.Is, ast.IsNot)) and isinstance(
+            t.left, ast.Name) and isinstance(t.comparators[0], ast.Name):
+      pair = frozenset((t.left.id, t.comparators[0].id))
+      if pair in self.identity_pairs:
+        if isinstance(t.ops[0], ast.IsNot):
+          want = not want
+        key = self._pair_key(pair)
+        out = {}
+        for fl, env in parts:
+          d = dict(fl)
+          if d.get(key, want) != want:
+            continue
+          d[key] = want
+          nf = tuple(sorted(d.items()))
+          out[nf] = self.join_envs(out[nf], env) if nf in out else env
+        return frozenset(out.items()) if out else None
     return parts
 
   def loc(self, node) -> str:
